@@ -276,3 +276,49 @@ def resolve_call_def(b, l, depth=0):
 def is_std_derive(b):
     sp = b.span
     return bool(sp.get("exp") and "Derive" in sp.get("macro", "") and not sp.get("macro_local", False))
+
+
+# ---------------- positive-control facts ----------------
+_POS = {}
+
+
+def positive_facts():
+    """Facts of fixtures/positive (a tiny crate full of forbidden constructs), extracted with the same driver.
+
+    Rules whose expected match count on nuts-rs is zero run their matcher on these facts on every run and
+    fail closed when the matcher does not report the planted construct (a silent matcher proves nothing)."""
+    if "F" not in _POS:
+        import os
+        from . import extract as X
+        from .facts import Facts
+        d, m = X.extract(os.path.join(X.VERIF, "fixtures", "positive"), "all", target_tag="pos")
+        _POS["F"] = Facts(d, m)
+    return _POS["F"]
+
+
+def all_closures_of(F, fn_path):
+    """Transitive closures (bodies) nested in fn_path."""
+    return sorted([b for b in F.bodies.values() if b.kind == "closure" and b.path.startswith(fn_path + "::{closure")], key=lambda b: b.path)
+
+
+def call_name(t):
+    return t["callee"].get("name")
+
+
+def callee_path(t):
+    c = t["callee"]
+    return strip_generics(c.get("path") or "")
+
+
+def capture_sources(F, cb):
+    """For a closure / async-block body: {captured var name: (parent body, value tree of the captured operand)}."""
+    out = {}
+    for pb in F.bodies.values():
+        if not cb.path.startswith(pb.path + "::{closure"):
+            continue
+        for blk in pb.blocks:
+            for st in blk["stmts"]:
+                if st["k"] == "assign" and st["rv"]["k"] == "agg" and st["rv"].get("closure") == cb.path:
+                    for c, op in zip(cb.captures, st["rv"]["ops"]):
+                        out[c["var"]] = (pb, pb.value(op))
+    return out
